@@ -408,6 +408,10 @@ func c04(w *core.World, r *core.Report) {
 		checkOrder(w, r, "MERGED-BEFORE-VALIDATE", rep, F, V, "FinishInsertionPhase before Validate (replace)")
 	}
 
+	// ---- PATTERN-ANCHORED (shared with C12)
+	r.Rule("PATTERN-ANCHORED", 2, "the pattern constraint is judged on the whole value: every regexp call that takes its expression from a schema pattern (validatePattern, utils.ConvertString) gets the anchored form '^(?:' + p + ')$' (RFC 7950 9.4.5: XSD patterns are implicitly anchored; Go's regexp searches).")
+	rulePatternAnchored(w, r, "PATTERN-ANCHORED")
+
 	// ---- VERDICT-GATE
 	r.Rule("VERDICT-GATE", 2, "the accept / reject decision is the verdict of the validation of the resulting configuration: in lowlevelTransactionSet and replaceIntent the device is written only on the false outcome of HasErrors() of the very value RootEntry.Validate returned (shared machinery with C03.VALIDATION-GUARD).")
 	ruleVerdictGate(w, r, "VERDICT-GATE")
